@@ -115,6 +115,37 @@ func stageBChild(c *vkit.Ctx) {
 			}
 		}
 	}
+	if idx == 3 && bigMode {
+		// Boundary probe at the default sizes: well-formed records whose serialized message is exactly 65535, 65536 and 65537
+		// bytes (the msgpack str16 / str32 switch) between ordinary ones, all demanded like sentinels: a wrong header makes
+		// the whole chunk undecodable and takes the neighbours with it.
+		connID++
+		var sb bytes.Buffer
+		var probe []want
+		seq := 0
+		for _, L := range []int{0, 65535, 65536, 65537, 0} {
+			seq++
+			rec := e2e.Rec{Conn: connID, Seq: seq, App: "appA", Sev: 6, Host: "h1", Kind: "plain"}
+			if L > 0 {
+				rec.Pad = L - len("S="+rec.Stamp()+";") - 1
+			}
+			sb.WriteString(rec.Line() + "\n")
+			probe = append(probe, want{rec, "length-probe", 0})
+		}
+		if conn, err := net.DialTimeout("tcp", a.Addr, 5*time.Second); err == nil {
+			tc := conn.(*net.TCPConn)
+			_, werr := tc.Write(sb.Bytes())
+			_ = tc.CloseWrite()
+			_ = tc.SetReadDeadline(time.Now().Add(20 * time.Second))
+			var one [8]byte
+			_, _ = tc.Read(one[:])
+			_ = tc.Close()
+			if werr == nil {
+				demanded = append(demanded, probe...)
+				c.Event("stageB_length_probe_records", len(probe))
+			}
+		}
+	}
 	for b := 0; b < nb; b++ {
 		nconn := 1 + r.Intn(3)
 		var wg sync.WaitGroup
